@@ -64,11 +64,13 @@ RULES = {
         "them. Broken -> permuting / sorting / refilling one container silently changes the layout of its weak clones (their values no longer "
         "belong to the stored positions).", 30),
     "C20.clone-cross-type": (
-        "aliasing clause for the templated Container::clone(const Container<DT2,IT2>&, mode): composing the extracted sharing table of "
-        "Container::assign with the extracted aliasing table of Container::clone (and move), every array kind the mode documents as "
-        "freshly allocated (index arrays: Deep, Allocate; data arrays: Layout, Weak, Deep, Allocate) must not alias the source, for each "
-        "(data type same/different) x (index type same/different) instantiation (same rule as C02.clone-cross-type, lib/lafem_rules). "
-        "Broken -> a 'deep' clone across data types shares the source's index arrays: an in-place edit of one changes the other.", 18),
+        "every clone overload of every container class - the templated Container::clone(const Container<DT2,IT2>&, mode), T::clone(const T<DT2,IT2>&, mode) "
+        "of the derived classes and the value-returning T::clone(mode) const - is evaluated symbolically per clone mode and per (data type same/different) x "
+        "(index type same/different) instantiation: calls are composed from the extracted sharing table of Container::assign, the extracted aliasing table "
+        "of the same-type Container::clone and move; any other member that receives the source (T::convert(other), helpers) is followed into its body. "
+        "Whenever the enum documentation promises freshly allocated arrays (data arrays for Layout, Weak, Deep, Allocate; index arrays for Deep, Allocate) "
+        "the result must not alias the source. Broken (a cross-type clone that delegates to convert/assign, which share the arrays of the unchanged type; "
+        "adopting the conversion temporary) -> a deep/weak clone across index types aliases the source's values.", 400),
     "C20.extent-agreement": (
         "writer/reader agreement of recorded array extents: two constructors of one class that establish the same _scalar_index "
         "(same base-class size argument, same pushed scalars) describe the same logical container, and every generic reader "
